@@ -70,7 +70,7 @@ fn cases(max_n: usize) -> Vec<Case> {
     // short names, and long ones (decompression then moves every later record by tens of bytes,
     // so offsets taken before and after it cannot be confused without being noticed)
     for (ba, long) in [(nm("b.a"), false), (nm("host.subdomain.example.com"), true)] {
-    for strat in [Strategy::Max, Strategy::Plain] {
+    for strat in [Strategy::Max, Strategy::Plain, Strategy::RdataOnly] {
         if long && strat == Strategy::Plain {
             continue;
         }
@@ -112,7 +112,7 @@ fn cases(max_n: usize) -> Vec<Case> {
                     };
                     let incls: Vec<bool> = if sec == Sec::Additional { vec![false, true] } else { vec![false] };
                     for incl in incls {
-                        v.push(Case { bytes: encode(&m, strat), sec, incl_opt: incl, tag: format!("sec={}{} opt={} n={} ptr={} long={}", sec_name(sec), if incl { "+opt" } else { "" }, optname, n, (strat == Strategy::Max) as u8, long as u8) });
+                        v.push(Case { bytes: encode(&m, strat), sec, incl_opt: incl, tag: format!("sec={}{} opt={} n={} ptr={} long={}", sec_name(sec), if incl { "+opt" } else { "" }, optname, n, (strat != Strategy::Plain) as u8, long as u8) });
                     }
                 }
             }
